@@ -161,8 +161,10 @@ fn exec_program(prog: &Program, choose: &mut dyn FnMut(usize, &[Label], &[Label]
 }
 
 /// All interleavings (depth-first, re-executing from scratch), at most `limit`.
-fn explore_exhaustive(prog: &Program, limit: usize, sink: &mut dyn FnMut(Outcome)) -> (usize, bool) {
-    let mut choices: Vec<usize> = vec![];
+/// `prefix`: explore only the subtree below these first choices (used to split a big tree over
+/// several child processes; the subtrees of all prefixes of one length partition the tree).
+fn explore_exhaustive(prog: &Program, limit: usize, prefix: &[usize], sink: &mut dyn FnMut(Outcome)) -> (usize, bool) {
+    let mut choices: Vec<usize> = prefix.to_vec();
     let mut n = 0;
     loop {
         let mut widths: Vec<usize> = vec![];
@@ -178,6 +180,7 @@ fn explore_exhaustive(prog: &Program, limit: usize, sink: &mut dyn FnMut(Outcome
         // backtrack
         let mut full: Vec<usize> = (0..widths.len()).map(|d| if d < pre.len() { pre[d] } else { 0 }).collect();
         loop {
+            if full.len() <= prefix.len() { return (n, true); }
             match full.pop() {
                 None => return (n, true),
                 Some(c) => {
@@ -221,7 +224,8 @@ pub fn programs(thorough: bool, rng: &mut Rng) -> Vec<(Program, usize, usize)> {
     // exhaustive (all interleavings) only where the whole tree fits the tier; random walks otherwise
     let big = if thorough { 60_000 } else { 0 };
     // one producer, one consumer
-    v.push((p("1p-send-recv", (1, 0, 1), vec![vec![s1(1)]], vec![Op::Recv], vec![]), big, 700 * k));
+    // the complete send ‖ recv interleaving tree (14 586 schedules) is part of BOTH tiers
+    v.push((p("1p-send-recv", (1, 0, 1), vec![vec![s1(1)]], vec![Op::Recv], vec![]), 60_000, 0));
     v.push((p("1p-try-recv", (2, 0, 1), vec![vec![Op::TrySend(1)]], vec![Op::Recv], vec![]), big, 300 * k));
     v.push((p("1p-full-dropoldest", (1, 0, 1), vec![vec![s1(1), s1(2)]], vec![Op::Recv], vec![]), 0, 700 * k));
     v.push((p("1p-try-full", (1, 0, 1), vec![vec![Op::TrySend(1), Op::TrySend(2)]], vec![Op::Recv], vec![]), 0, 400 * k));
@@ -238,6 +242,7 @@ pub fn programs(thorough: bool, rng: &mut Rng) -> Vec<(Program, usize, usize)> {
     v.push((p("2p-send-send-recv", (2, 0, 2), vec![vec![s1(1)], vec![s1(1)]], vec![Op::Recv], vec![]), 0, 500 * k));
     v.push((p("2p-cap1-overflow", (1, 0, 2), vec![vec![s1(1), s1(2)], vec![Op::TrySend(1), s1(2)]], vec![Op::Recv, Op::Recv], vec![]), 0, 500 * k));
     v.push((p("2p-clone-drop", (2, 0, 1), vec![vec![Op::CloneTo(1), s1(1), Op::DropSrc], vec![s1(1), Op::DropSrc]], vec![Op::Recv, Op::Recv, Op::Recv], vec![]), 0, 500 * k));
+    v.push((p("4p-cap2", (2, 0, 4), vec![vec![s1(1), s1(2)], vec![Op::TrySend(1), s1(2)], vec![Op::Send(vec![1, 2])], vec![s1(1), Op::DropSrc]], vec![Op::Recv, Op::Recv, Op::Recv], vec![]), 0, 300 * k));
     v.push((p("3p-mixed", (3, 0, 3), vec![vec![Op::Send(vec![1, 2])], vec![Op::TrySend(1), Op::DropSrc], vec![s1(1), s1(2)]], vec![Op::Recv, Op::Recv], vec![Op::Stop]), 0, 300 * k));
     // index wrap-around of the ring (power-of-two capacity: harmless; see NOTES for capacity 3)
     v.push((p("wrap-cap2", (2, usize::MAX - 1, 1), vec![vec![Op::Send(vec![1, 2, 3])]], vec![Op::Recv, Op::Recv], vec![]), 0, 100 * k));
@@ -257,8 +262,8 @@ pub fn programs(thorough: bool, rng: &mut Rng) -> Vec<(Program, usize, usize)> {
     // random programs
     let nrand = if thorough { 120 } else { 20 };
     for i in 0..nrand {
-        let cap = *rng.pick(&[1usize, 1, 2, 2, 3, 4, 5, 8]);
-        let nprod = rng.range(1, 3) as usize;
+        let cap = *rng.pick(&[1usize, 1, 2, 2, 3, 4, 5, 8, 13, 16, 33, 64]);
+        let nprod = rng.range(1, 4) as usize;
         let mut prods = vec![];
         for _ in 0..nprod {
             let mut ops = vec![];
@@ -301,7 +306,9 @@ fn child_main(args: &Args) {
         let _ = out.flush();
         emit(exec_labels(init, pipe, &labels), &mut out);
     } else if let Some(idx) = job.strip_prefix("prog:") {
-        let idx: usize = idx.parse().unwrap();
+        let mut f = idx.split(':');
+        let idx: usize = f.next().unwrap().parse().unwrap();
+        let part: Option<(usize, usize)> = f.next().and_then(|p| { let (a, n) = p.split_once('/')?; Some((a.parse().ok()?, n.parse().ok()?)) });
         let mut rng = Rng::new(args.seed);
         let progs = programs(args.tier_thorough, &mut rng);
         let (prog, exh, nrand) = &progs[idx];
@@ -317,11 +324,22 @@ fn child_main(args: &Args) {
             emit(exec_labels(prog.init, prog.pipe, &labels), &mut out);
         }
         if *exh > 0 {
-            let (n, complete) = explore_exhaustive(prog, *exh, &mut |o| emit(o, &mut out));
-            let _ = writeln!(out, "COUNT exhaustive_schedules:{} {}", prog.name, n);
-            let _ = writeln!(out, "COUNT exhaustive_complete:{} {}", prog.name, complete as u8);
+            // optional `:part/nparts` — this child explores the subtrees of the 3-choice prefixes
+            // (both threads are enabled during the first three steps) whose number ≡ part (mod nparts)
+            let prefixes: Vec<Vec<usize>> = match part {
+                None => vec![vec![]],
+                Some((a, n)) => (0..8usize).filter(|x| x % n == a).map(|x| vec![x & 1, (x >> 1) & 1, (x >> 2) & 1]).collect(),
+            };
+            let (mut total, mut all) = (0, true);
+            for pre in &prefixes {
+                let (n, complete) = explore_exhaustive(prog, *exh, pre, &mut |o| emit(o, &mut out));
+                total += n;
+                all &= complete;
+            }
+            let _ = writeln!(out, "COUNT exhaustive_schedules:{} {}", prog.name, total);
+            let _ = writeln!(out, "COUNT exhaustive_incomplete_parts:{} {}", prog.name, (!all) as u8);
         }
-        if *nrand > 0 {
+        if *nrand > 0 && part.map(|p| p.0 == 0).unwrap_or(true) {
             let mut r = Rng::new(args.seed ^ (idx as u64 + 1).wrapping_mul(0x9E37_79B9));
             explore_random(prog, *nrand, &mut r, &mut |o| emit(o, &mut out));
             let _ = writeln!(out, "COUNT random_schedules:{} {}", prog.name, nrand);
@@ -439,12 +457,17 @@ pub fn run(args: &Args) {
     let mut rng = Rng::new(args.seed);
     let progs = programs(args.tier_thorough, &mut rng);
     // children in parallel, a few at a time
-    let par = 4;
+    // jobs: one child per program; a big exhaustive tree is split over 4 children
+    let mut jobs: Vec<(usize, String)> = vec![];
+    for (i, (_, exh, _)) in progs.iter().enumerate() {
+        if *exh >= 10_000 { for a in 0..4 { jobs.push((i, format!("prog:{i}:{a}/4"))); } } else { jobs.push((i, format!("prog:{i}"))); }
+    }
+    let par = 6;
     let mut idx = 0;
-    while idx < progs.len() {
-        let hi = (idx + par).min(progs.len());
+    while idx < jobs.len() {
+        let hi = (idx + par).min(jobs.len());
         let results: Vec<(usize, ChildResult)> = std::thread::scope(|sc| {
-            let hs: Vec<_> = (idx..hi).map(|i| sc.spawn(move || (i, run_child(&format!("prog:{i}"), args, 900)))).collect();
+            let hs: Vec<_> = jobs[idx..hi].iter().map(|(i, j)| sc.spawn(move || (*i, run_child(j, args, 900)))).collect();
             hs.into_iter().map(|h| h.join().unwrap()).collect()
         });
         for (i, res) in results { absorb(&mut run, &res, &sig_tag(&progs[i].0.init)); }
